@@ -327,6 +327,33 @@ def _check_order(ctx, owner, name, fn, mem, pss):
 
 def check_foreign(ctx):
     model = ctx.model
+    mem0 = model.lookup(model.cls(f"{M}:Mapper"), "map_foreign")
+    fwit = None
+    try:
+        from .. import dispatch
+        fwit, _routes = dispatch.judge_foreign(model)
+    except AnalysisError as e:
+        ctx.extra["judge_unavailable:Mapper.map_foreign"] = str(e)
+    if fwit is not None:
+        ctx.ob("D0/map_foreign/routing-semantics", not fwit, where(mem0),
+               "map_foreign interpreted on a number of every registered kind, "
+               "a list, a tuple, a numpy array, a string and an unsupported "
+               "object: constants / list / tuple / array handler with "
+               "(object, *extras, **kw), anything else refused" if not fwit
+               else "Mapper.map_foreign: " + "; ".join(fwit[:3]))
+    mark = len(ctx.obs)
+    try:
+        _check_foreign_structural(ctx)
+    except AnalysisError:
+        if fwit is None or fwit:
+            raise
+    if fwit is not None and not fwit:
+        ctx.withdraw_failures_since(
+            mark, "decided by interpreting map_foreign", prefix="D3/map_foreign/")
+
+
+def _check_foreign_structural(ctx):
+    model = ctx.model
     owner, fn = model.require_method(f"{M}:Mapper", "map_foreign")
     mem = model.lookup(model.cls(f"{M}:Mapper"), "map_foreign")
     want = {
